@@ -273,7 +273,9 @@ func openRefusedBody(c *nd.Ctx) nd.Result {
 		h := &ibb.Handler{}
 		env.Serve(mux.New(ns, ibb.Handle(h)))
 		conn, openErr = h.OpenIQ(context.Background(), stanza.IQ{To: mustJID(peerJID)}, env.S, acked, 4096, "sid1")
-		env.PeerWrite("</stream:stream>")
+		// the refused stream does not exist: packets for it are refused like
+		// packets for any unknown session
+		env.PeerWrite(dataPacket("iq", "late-data", "sid1", 0, []byte("x")) + closeReq("late-close", "sid1") + "</stream:stream>")
 		vsess.Wait("serve-done", func() bool { return env.ServeDone })
 	})
 	if setupErr != nil {
@@ -286,6 +288,17 @@ func openRefusedBody(c *nd.Ctx) nd.Result {
 	}
 	if openErr == nil || conn != nil {
 		res.Violation = &nd.Violation{Sig: "open:succeeds-although-refused", Msg: fmt.Sprintf("the peer answered the open request with an error IQ but Open returned conn=%v err=%v", conn != nil, openErr)}
+		return res
+	}
+	for _, el := range vsess.TopLevel(ns, string(env.Lib.Written())) {
+		id := el.Attr("id")
+		if id != "late-data" && id != "late-close" {
+			continue
+		}
+		if el.Attr("type") != "error" || !strings.Contains(el.Raw, "item-not-found") {
+			res.Violation = &nd.Violation{Sig: "open:refused-stream-still-registered", Msg: fmt.Sprintf("the open request was refused, yet a later %s for that session id was answered with %s", id, el.Raw)}
+			return res
+		}
 	}
 	return res
 }
